@@ -224,11 +224,14 @@ def _eligible_comb(F, caller, blocks, t, stack):
         return None
     a0 = t["args"][0]
     cl_op = t["args"][-1]
-    if a0[0] not in ("mv", "cp") or cl_op[0] not in ("mv", "cp") or len(cl_op[1]) != 1:
-        return None
     if len(t["args"]) != (3 if spec[1] == "arg1" else 2):
         return None
     if t.get("mac"):
+        return None
+    if a0[0] in ("mv", "cp") and cl_op[0] == "f" and isinstance(cl_op[1], str):
+        # `res.map(Self::new)`: a function handed over by name plays the part of `|x| Self::new(x)`
+        return spec, None, {"fn": cl_op[1]}
+    if a0[0] not in ("mv", "cp") or cl_op[0] not in ("mv", "cp") or len(cl_op[1]) != 1:
         return None
     agg = _closure_agg(blocks, cl_op[1][0])
     if agg is None:
@@ -631,6 +634,8 @@ def _expand_combinator(F, body, det, byid, state, alloc_block, work, blk, spec, 
     t = blk["term"]
     other_discr, yields, payload_variant = spec[:3]
     wrap = spec[3] if len(spec) > 3 else None
+    if cl is None:
+        return _expand_combinator_fn(F, body, det, byid, state, alloc_block, work, blk, spec, agg["fn"], depth, stack, thr)
     hraw = F._detail_for(cl.unit).get(cl.path)
     if hraw is None or len(byid) + len(hraw["blocks"]) > MAX_TOTAL_BLOCKS:
         return
@@ -744,6 +749,76 @@ def _expand_combinator(F, body, det, byid, state, alloc_block, work, blk, spec, 
                            "threaded_returns": threaded})
 
 
+def _expand_combinator_fn(F, body, det, byid, state, alloc_block, work, blk, spec, fn_path, depth, stack, thr):
+    """`opt.map(f)` etc. with a function item: `switch discriminant(opt) { other => d = ..; payload => d = wrap(f(payload)) }`"""
+    t = blk["term"]
+    other_discr, yields, payload_variant = spec[:3]
+    wrap = spec[3] if len(spec) > 3 else None
+    line = t.get("l")
+    opt_place = list(t["args"][0][1])
+    tmp, arg, res = state["next_l"], state["next_l"] + 1, state["next_l"] + 2
+    state["next_l"] += 3
+    det["locals"][str(tmp)] = "isize"
+    det["locals"][str(arg)] = "(payload handed to %s)" % fn_path
+    det["locals"][str(res)] = "(result of %s)" % fn_path
+    b_other, b_some, b_ret = alloc_block(), alloc_block(), alloc_block()
+    dest = list(t["d"])
+    cont = t["t"]
+    blk["stmts"] = list(blk["stmts"]) + [{"d": [tmp], "rv": {"k": "discr", "p": opt_place}, "l": line}]
+    blk["term"] = {"k": "switch", "on": ["mv", [tmp]], "targets": [[other_discr, b_other]], "otherwise": b_some, "l": line, "inlined_call": fn_path}
+    if yields in ("true", "false"):
+        ost = [{"d": dest, "rv": {"k": "use", "a": ["c", yields]}, "l": line}]
+    elif yields == "none":
+        ost = [{"d": dest, "rv": {"k": "agg", "ak": "adt", "adt": "core::option::Option", "variant": "None", "fields": [], "ops": []}, "l": line}]
+    elif yields == "same":
+        ost = [{"d": dest, "rv": {"k": "use", "a": ["mv", opt_place]}, "l": line}]
+    else:
+        ost = [{"d": dest, "rv": {"k": "use", "a": t["args"][1]}, "l": line}]
+    from facts import norm
+    call = {"k": "call", "callee": fn_path, "gen": fn_path, "ncallee": norm(fn_path), "ngen": norm(fn_path), "f": ["f", fn_path], "args": [["mv", [arg]]], "d": [res], "t": b_ret,
+            "u": t.get("u"), "l": line, "mac": None}
+    if wrap:
+        wadt, wvar = ("core::option::Option", "Some") if wrap == "opt:Some" else ("core::result::Result", "Ok")
+        rst = [{"d": dest, "rv": {"k": "agg", "ak": "adt", "adt": wadt, "variant": wvar, "fields": ["0"], "ops": [["mv", [res]]]}, "l": line}]
+    else:
+        rst = [{"d": dest, "rv": {"k": "use", "a": ["mv", [res]]}, "l": line}]
+    for bid_, st_, tm_ in ((b_other, ost, {"k": "goto", "t": cont}),
+                           (b_some, [{"d": [arg], "rv": {"k": "use", "a": ["mv", opt_place + ["@" + payload_variant, ".0"]]}, "l": line}], call),
+                           (b_ret, rst, {"k": "goto", "t": cont})):
+        nb = {"id": bid_, "cleanup": False, "stmts": st_, "term": tm_}
+        det["blocks"].append(nb)
+        byid[bid_] = nb
+    det["extra"]["calls"].append({"bb": b_some, "line": line, "callee": fn_path, "ncallee": norm(fn_path), "ngen": norm(fn_path), "gen": fn_path, "resolved": True, "mac": None, "consts": [],
+                                  "inlined": True})
+    threaded = 0
+    try:
+        if wrap and len(dest) == 1:
+            tgt = thr.thread_caller(cont, {dest[0]: ("opt", "Some") if wrap == "opt:Some" else ("res", "Ok")})
+            if tgt != cont:
+                byid[b_ret]["term"] = {"k": "goto", "t": tgt, "threaded_return": True}
+                threaded += 1
+        otag = ("bool", yields == "true") if yields in ("true", "false") else ("opt", "None") if yields == "none" else ("res", "Err") if yields == "same" else None
+        if otag is not None and len(dest) == 1:
+            def fresh(old):
+                nl = state["next_l"]
+                state["next_l"] += 1
+                det["locals"][str(nl)] = det["locals"].get(str(old), "bool")
+                return nl
+            d2 = fresh(dest[0])
+            tgt = thr.thread_caller(cont, {d2: otag}, fresh=fresh, rename={dest[0]: d2})
+            if tgt != cont:
+                byid[b_other]["stmts"] = [dict(ost[0], d=[d2])]
+                byid[b_other]["term"] = {"k": "goto", "t": tgt, "threaded_return": True}
+                threaded += 1
+    except Exception:
+        pass
+    det["inlined"].append({"callee": fn_path, "at_block": blk["id"], "line": line, "depth": depth, "blocks": 3, "async": False, "combinator_fn": True, "threaded_returns": threaded})
+    if depth < DEPTH:
+        h2 = _eligible(F, body, call, stack)
+        if h2 is not None:
+            work.append((b_some, h2, depth + 1, stack + (h2.path,)))
+
+
 def _expand_closure_call(F, body, det, byid, state, alloc_block, work, blk, cl, agg, tup, depth, stack, thr):
     """replace `d = closure(args..)` by the closure's blocks: captures bound from the closure aggregate, parameters from the argument tuple"""
     t = blk["term"]
@@ -823,7 +898,7 @@ def inline_detail(F, body, raw):
             hc = _eligible_comb(F, body, blocks, t, (body.path,))
             hcc = _eligible_closure_call(F, body, blocks, t, (body.path,)) if hc is None else None
             if hc is not None:
-                work.append((blk["id"], ("comb",) + hc, 1, (body.path, hc[1].path)))
+                work.append((blk["id"], ("comb",) + hc, 1, (body.path,) + ((hc[1].path,) if hc[1] is not None else ())))
             elif hcc is not None:
                 work.append((blk["id"], ("clcall",) + hcc, 1, (body.path, hcc[0].path)))
             elif body.coroutine:
@@ -925,7 +1000,7 @@ def inline_detail(F, body, raw):
                 if h2 is not None:
                     work.append((nblk["id"], h2, depth + 1, stack + (h2.path,)))
                 elif hc2 is not None:
-                    work.append((nblk["id"], ("comb",) + hc2, depth, stack + (hc2[1].path,)))
+                    work.append((nblk["id"], ("comb",) + hc2, depth, stack + ((hc2[1].path,) if hc2[1] is not None else ())))
                 elif is_async or body.coroutine:
                     hp = _eligible_poll(F, body, nt, stack)
                     if hp is not None:
